@@ -543,7 +543,9 @@ class C01(Base):
 
     def streams(self, tier, seed):
         f = {"recv": ["ack", "bal"], "recvh": ["ack", "bal"]}
-        sts = [Stream("S3-receiver-grid", c01_targeted(Rng(seed * 1000 + 1)), fields=f, oracle=c01_oracle)]
+        _, toks = scen.base_setup()
+        sts = [Stream("S3-receiver-grid", c01_targeted(Rng(seed * 1000 + 1)), fields=f, oracle=c01_oracle),
+               Stream("S3-bridge-refusals", c03_natural_lines(Rng(seed), toks), fields=f, oracle=c01_oracle)]
         sts += history_stream("S3-history", 1, tier, seed, 150, 600, f, c01_oracle)
         return sts
 
@@ -661,9 +663,18 @@ def c02_oracle(steps):
             out.append((s.i, "escrow: escrow released %d of %s, packet amount %d" % (-delta.get((esc, dn), 0), dn, A)))
         # (iv) the orbiter keeps nothing of the delivered coin; what it held before goes to the dust collector
         had = pre.get(dn, 0)
+        fee_rcpts = set()
+        for act in p["payload"].get("pre_actions") or []:
+            try:
+                for fi in act["attributes"].get("fees_info") or []:
+                    a = decode_addr(fi.get("recipient", ""))
+                    if a:
+                        fee_rcpts.add(a.hex())
+            except Exception:
+                pass
         if delta.get((ORBHEX, dn), 0) != -had:
             out.append((s.i, "orbiter: orbiter balance of %s changed by %d, pre-existing %d" % (dn, delta.get((ORBHEX, dn), 0), had)))
-        if delta.get((DUSTHEX, dn), 0) != had:
+        if DUSTHEX not in fee_rcpts and delta.get((DUSTHEX, dn), 0) != had:
             out.append((s.i, "dust: dust collector received %d of %s, pre-existing orbiter balance %d" % (delta.get((DUSTHEX, dn), 0), dn, had)))
         # (v) nobody else: only fee recipients and the route's account
         allowed = {esc, ORBHEX, DUSTHEX}
@@ -688,6 +699,8 @@ def c02_oracle(steps):
                 out.append((s.i, "bystander: account %s changed by %d %s" % (a, v, d)))
         # (vi) the outgoing amount is strictly positive: what left towards fees is strictly less than A
         gained = sum(v for (a, d), v in delta.items() if d == dn and v > 0 and a not in (DUSTHEX,))
+        if DUSTHEX in fee_rcpts:
+            gained += delta.get((DUSTHEX, dn), 0) - had
         burned = -sup.get(dn, 0)
         if gained + burned != A:
             out.append((s.i, "split: fee credits + outgoing = %d, delivered %d" % (gained + burned, A)))
@@ -701,7 +714,9 @@ class C02(Base):
 
     def streams(self, tier, seed):
         f = {"recv": ["ack", "bal", "sup"], "recvh": ["ack", "bal", "sup"]}
-        return history_stream("S3-ledger", 2, tier, seed, 200, 700, f, c02_oracle, p_admin=6, p_deposit=10, p_query=0, p_reimport=0)
+        _, toks = scen.base_setup()
+        return history_stream("S3-ledger", 2, tier, seed, 200, 700, f, c02_oracle, p_admin=6, p_deposit=10, p_query=0, p_reimport=0) + \
+            [Stream("S3-bridge-refusals", c03_natural_lines(Rng(seed), toks), fields=f, oracle=lambda st: c02_oracle(st) + c01_oracle(st))]
 
 
 # ----------------------------------------------------------------------------------------------- C03
@@ -1073,6 +1088,16 @@ def c07_lines(r, n):
     for b in [b"", b"null", b"[]", b"{}", b"{\"receiver\":\"" + U[0].encode() + b"\"}", b"{\"denom\":\"uatom\",\"amount\":\"5\",\"sender\":\"a\",\"receiver\":\"" + U[0].encode() + b"\"} trailing",
               b"{\"denom\":\"uatom\",\"amount\":\"5\",\"sender\":\"a\",\"receiver\":\"" + U[0].encode() + b"\",\"extra\":1}"]:
         lines.append(pkt_line("withoutmw", b))
+    # structural mutations of well-formed ICS-20 data (extra keys, aliases, wrong types) for an ordinary receiver and for the
+    # orbiter address: whatever the transfer application does not accept as ICS-20 data is not an orbiter packet either
+    for rc in (U[0], ORB):
+        doc = {"denom": "transfer/channel-7/uusdc", "amount": "5", "sender": b32(addr(200)), "receiver": rc, "memo": goodmemo if rc == ORB else ""}
+        for m in scen.mutations(doc, r, 80):
+            lines.append(pkt_line("withoutmw", m))
+        base = _json.dumps(doc, separators=(",", ":"))
+        for m in [base.replace("\"receiver\"", "\"Receiver\""), base.replace("\"receiver\"", "\"RECEIVER\""), base.replace("\"memo\"", "\"Memo\""),
+                  base[:-1] + ",\"fee\":\"1\"}", base[:-1] + ",\"receiver\":\"" + U[1] + "\"}", "[" + base + "]", base + base]:
+            lines.append(pkt_line("withoutmw", m))
     # all valid channel / port identifiers on the source side; channel-N on the destination side
     for sp, sc in [("transfer", "channel-0"), ("wasm.abc", "channel-99999"), ("ics20", "chan-free-form"), ("a.b_c+d-e#[f]<g>", "channel-18446744073709551615")]:
         for dc in ["channel-0", "channel-1", "channel-18446744073709551615", "channel-007"]:
@@ -1219,6 +1244,8 @@ def pause_oracle(steps):
                     aid = PauseSpec.A.get(a.get("id"), a.get("id")) if isinstance(a, dict) else None
                     if aid in spec.actions:
                         out.append((s.i, "paused-action: payload containing paused action %s executed" % aid))
+                    if aid == 2 and s.op == "recv":
+                        out.append((s.i, "unrouted-action: a payload naming ACTION_SWAP executed on the chain's own wiring (no swap controller)"))
         if s.op == "query":
             q = s.line.split(" ")
             if q[1] == "PausedProtocols" and s.impl.get("res") == "ok":
@@ -1251,6 +1278,55 @@ def pause_oracle(steps):
         if "st" in s.impl:
             prev_st = s.impl["st"]
     return out
+
+
+def pause_targeted(toks):
+    """for every destination: pause -> probe -> unpause -> probe, at protocol and at cross-chain level; same for actions"""
+    tok = toks[0][0]
+    lines = []
+    dests = [("PROTOCOL_CCTP", "0", cctp_fwd(domain=0), "uusdc"), ("PROTOCOL_CCTP", "5", cctp_fwd(domain=5), "uusdc"),
+             ("PROTOCOL_HYPERLANE", "1", hyp_fwd(tok, domain=1), "uusdc"), ("PROTOCOL_HYPERLANE", "4294967295", hyp_fwd(tok, domain=4294967295), "uusdc"),
+             ("PROTOCOL_HYPERLANE", "2147483648", hyp_fwd(tok, domain=2147483648), "uusdc"), ("PROTOCOL_INTERNAL", "noble", int_fwd(U[1]), "uother")]
+    fee = [fee_action([(U[4], "b", 100)])]
+    for p, c, fwd, dn in dests:
+        for acts in (None, fee):
+            lines.append(orb_pkt("recv", 10 ** 6, fwd, acts, denom=dn))
+        lines.append(msg_line("PauseCrossChains", AUTHORITY, hx(p), hx(c)))
+        lines.append("query IsCrossChainPaused %s %s" % (hx(p), hx(c)))
+        for acts in (None, fee):
+            lines.append(orb_pkt("recv", 10 ** 6, fwd, acts, denom=dn))
+        lines.append(msg_line("PauseCrossChains", AUTHORITY, hx(p), hx(c)))          # redundant
+        lines.append(msg_line("UnpauseCrossChains", AUTHORITY, hx(p), hx(c)))
+        lines.append(orb_pkt("recv", 10 ** 6, fwd, None, denom=dn))
+        lines.append(msg_line("UnpauseCrossChains", AUTHORITY, hx(p), hx(c)))        # redundant
+        lines.append(msg_line("PauseProtocol", AUTHORITY, hx(p)))
+        lines.append(orb_pkt("recv", 10 ** 6, fwd, None, denom=dn))
+        lines.append(msg_line("UnpauseProtocol", AUTHORITY, hx(p)))
+        lines.append(orb_pkt("recv", 10 ** 6, fwd, None, denom=dn))
+        # batches: a redundant id in the middle must fail the whole batch
+        lines.append(msg_line("PauseCrossChains", AUTHORITY, hx(p), hx(c)))
+        other = {"PROTOCOL_CCTP": ["1", "7"], "PROTOCOL_HYPERLANE": ["2", "9"], "PROTOCOL_INTERNAL": ["x", "y"]}[p]
+        lines.append(msg_line("PauseCrossChains", AUTHORITY, hx(p), hx(other[0]), hx(c), hx(other[1])))
+        lines.append("query PausedCrossChains %s nopage" % hx(p))
+        lines.append(msg_line("UnpauseCrossChains", AUTHORITY, hx(p), hx(other[0]), hx(c)))
+        lines.append("query PausedCrossChains %s nopage" % hx(p))
+        lines.append(msg_line("UnpauseCrossChains", AUTHORITY, hx(p), hx(c)))
+    # actions
+    for a in ("ACTION_FEE", "ACTION_SWAP"):
+        lines.append(msg_line("PauseAction", AUTHORITY, hx(a)))
+        lines.append("query IsActionPaused " + hx(a))
+        lines.append("query PausedActions")
+        for acts in (None, fee, [swap_action()], [swap_action(), fee[0]], [fee[0], swap_action()]):
+            lines.append(orb_pkt("recv", 10 ** 6, int_fwd(U[1]), acts))
+            lines.append(orb_pkt("recvh", 10 ** 6, int_fwd(U[1]), acts))
+        lines.append(msg_line("PauseAction", AUTHORITY, hx(a)))                      # redundant
+        lines.append(msg_line("UnpauseAction", AUTHORITY, hx(a)))
+        lines.append("query IsActionPaused " + hx(a))
+        for acts in (fee, [swap_action(), fee[0]]):
+            lines.append(orb_pkt("recv", 10 ** 6, int_fwd(U[1]), acts))
+            lines.append(orb_pkt("recvh", 10 ** 6, int_fwd(U[1]), acts))
+        lines.append(msg_line("UnpauseAction", AUTHORITY, hx(a)))                    # redundant
+    return lines
 
 
 def pause_history(r, n, toks, actions_focus=False):
@@ -1316,10 +1392,13 @@ class C08(Base):
 
     def streams(self, tier, seed):
         out = []
-        f = {"msg": ["res", "st"], "recv": ["ack"], "query": ["res", "out", "next", "total"]}
+        f = {"msg": ["res", "st"], "recv": ["ack"], "recvh": ["ack"], "query": ["res", "out", "next", "total"]}
         for h in range(self.n(tier, 3, 12)):
             r = Rng(seed * 100000 + 800 + h)
             lines, toks = scen.base_setup()
+            if h == 0:
+                lines.append("deposit %s %s %d" % (hx(POOL), hx("uother"), 10 ** 30))
+                lines += pause_targeted(toks)
             lines += pause_history(r, self.n(tier, 200, 800), toks)
             out.append(Stream("S3-pause-history-%d" % h, lines, fields=f, oracle=pause_oracle))
         return out
@@ -1332,10 +1411,13 @@ class C09(Base):
 
     def streams(self, tier, seed):
         out = []
-        f = {"msg": ["res", "st"], "recv": ["ack", "bal"], "query": ["res", "out"]}
+        f = {"msg": ["res", "st"], "recv": ["ack", "bal"], "recvh": ["ack", "bal"], "query": ["res", "out"]}
         for h in range(self.n(tier, 3, 12)):
             r = Rng(seed * 100000 + 900 + h)
             lines, toks = scen.base_setup()
+            if h == 0:
+                lines.append("deposit %s %s %d" % (hx(POOL), hx("uother"), 10 ** 30))
+                lines += pause_targeted(toks)
             lines += pause_history(r, self.n(tier, 200, 800), toks, actions_focus=True)
             out.append(Stream("S3-action-pause-history-%d" % h, lines, fields=f, oracle=pause_oracle))
         return out
@@ -1433,8 +1515,15 @@ def c11_lines(r, n, toks):
     base = []
     for _ in range(n):
         base.append(scen.rand_transfer2(r, "recvh", toks))
+    # some transfers carry a passthrough payload (the limit is raised first in both passes)
+    for i in range(0, len(base), 4):
+        if base[i].startswith("recvh"):
+            fwd = r.choice([cctp_fwd(domain=0, passthrough=r.bytes(r.range(1, 32))), hyp_fwd(toks[0][0], domain=1, passthrough=r.bytes(r.range(1, 32)))])
+            base[i] = orb_pkt("recvh", r.range(1000, 10 ** 9), fwd, [fee_action([(U[3], "b", 100)])] if r.chance(1, 2) else None)
     lines1, _ = scen.base_setup()
     lines2, _ = scen.base_setup()
+    lines1.append(msg_line("UpdateParams", AUTHORITY, "64"))
+    lines2.append(msg_line("UpdateParams", AUTHORITY, "64"))
     pairs = []
     l1 = list(lines1)
     l2 = list(lines2)
@@ -1710,6 +1799,16 @@ def c18_lines(r, n):
         return out
     lines += probes(0)                       # default parameters
     lines.append("query Params")
+    # every value set by the authority in turn, including back to zero, each followed by the boundary probes;
+    # and an over-limit probe right after coins were left on the orbiter account
+    for v in [16, 64, 8, 0, 1, 0, 2 ** 32 - 1, 0, 17]:
+        lines.append(msg_line("UpdateParams", AUTHORITY, str(v)))
+        lines.append("query Params")
+        lines += probes(v)
+        if v < 5000:
+            lines.append("deposit %s %s 3" % (hx(ORB_BYTES), hx("uusdc")))
+            lines.append(orb_pkt("recv", 1000, cctp_fwd(domain=0, passthrough=b"\xee" * (v + 1))))
+            lines.append(orb_pkt("recv", 1000, cctp_fwd(domain=0, passthrough=b"\xee" * v)))
     for _ in range(n):
         v = r.choice(limit_values)
         signer = AUTHORITY if r.chance(4, 5) else U[0]
